@@ -17,6 +17,7 @@ import (
 	"sync"
 	"sync/atomic"
 	"syscall"
+	"time"
 
 	"github.com/pkg/xattr"
 )
@@ -32,6 +33,7 @@ var (
 	planErr  syscall.Errno
 	traceF   *os.File
 	traceMu  sync.Mutex
+	pauseDir string
 )
 
 // Reset restarts operation numbering (in-process harnesses call it before each run).
@@ -49,6 +51,14 @@ func loadPlan() {
 	case strings.HasPrefix(p, "trace:"):
 		planKind = "trace"
 		traceF, _ = os.OpenFile(strings.TrimPrefix(p, "trace:"), os.O_WRONLY|os.O_CREATE|os.O_APPEND, 0o644)
+	case strings.HasPrefix(p, "pause@"):
+		// pause@k:<dir>: before operation k create <dir>/reached and wait until <dir>/go exists (cross-process scheduling)
+		planKind = "pause"
+		parts := strings.SplitN(strings.TrimPrefix(p, "pause@"), ":", 2)
+		planK, _ = strconv.ParseInt(parts[0], 10, 64)
+		if len(parts) == 2 {
+			pauseDir = parts[1]
+		}
 	case strings.HasPrefix(p, "tear@"):
 		planKind = "tear"
 		planK, _ = strconv.ParseInt(strings.TrimPrefix(p, "tear@"), 10, 64)
@@ -80,6 +90,16 @@ func step(op, path string) error {
 		traceMu.Unlock()
 	}
 	switch planKind {
+	case "pause":
+		if n == planK {
+			os.WriteFile(pauseDir+"/reached", []byte(fmt.Sprintf("%d %s %s\n", n, op, path)), 0o644)
+			for {
+				if _, err := os.Stat(pauseDir + "/go"); err == nil {
+					break
+				}
+				time.Sleep(2 * time.Millisecond)
+			}
+		}
 	case "tear":
 		if n == planK {
 			TearLast() // the file being written when the process died is only half there
